@@ -96,19 +96,23 @@ MiscSig(r) == CASE r.fam = "variadic" -> [fam |-> "variadic", mode |-> r.mode, f
 (* ---- pkginit: {id, imps, vars, inits, form, outcome, out}: out = the lines printed (numbers; -1 for anything else) by the
    program of PkgInit.tla written in source form `form` (0: one import declaration per package, variables before the
    init functions; 1: one grouped import declaration, init functions textually before the variables - the reference
-   does not look at the form).  Good iff the program builds, runs to the end and prints the output of one of the
-   initialisation orders the Go specification allows (PiAccepts; see PkgInit.tla for the reading chosen); a program
+   does not look at the form).  Good iff the program builds, runs to the end and prints the output of the
+   initialisation order of the Go specification (Go 1.21 and later: PiRefOut121; see PkgInit.tla); a program
    whose imports form a cycle must not build. *)
 PkgProg(r) == [imps |-> r.imps, vars |-> r.vars, inits |-> r.inits]
 PkgOk(r) == IF ~PiAcyclic(r.imps) THEN r.outcome = "builderror"        \* (the wording of the error is not judged)
-            ELSE r.outcome = "ok" /\ PiAccepts(PkgProg(r), r.out)
-\* like: a build error on an acyclic import graph for which ParseProgram's stack search, taking every entry of the
-\* stack for an ancestor, reports a cycle
+            ELSE r.outcome = "ok" /\ r.out = PiRefOut121(PkgProg(r))
+\* like: "import-declaration-order" - the output is the one of the reference with independent packages taken in the order
+\* of the import declarations (PiDeclOrder) instead of the order of their import paths; "pending-import-taken-for-an-ancestor"
+\* - a build error on an acyclic import graph for which ParseProgram's stack search, taking every entry of the stack
+\* for an ancestor (the code before 984b438), reports a cycle
 PkgSig(r) == [fam |-> "pkginit",
               cause |-> IF ~PiAcyclic(r.imps) THEN "missed-import-cycle"
                         ELSE IF r.outcome # "ok" THEN r.outcome ELSE PiCause(PkgProg(r), r.out),
               like |-> IF PiAcyclic(r.imps) /\ r.outcome = "builderror" /\ PiParserReportsCycle(PkgProg(r), FALSE)
-                       THEN "pending-import-taken-for-an-ancestor" ELSE "other"]
+                       THEN "pending-import-taken-for-an-ancestor"
+                       ELSE IF PiAcyclic(r.imps) /\ r.outcome = "ok" /\ r.out = PiRefOutDecl(PkgProg(r)) THEN "import-declaration-order"
+                       ELSE "other"]
 
 RecOk(r) == CASE r.fam = "intalu" -> AluOk(r) [] r.fam = "initorder" -> InitOk(r) [] r.fam = "conv" -> ConvOk(r) [] r.fam = "minigo" -> MgOk(r)
               [] r.fam \in MiscFams -> MiscOk(r) [] r.fam = "pkginit" -> PkgOk(r)
